@@ -124,6 +124,8 @@ class BaseDetector(BaseEstimator):
         Creates fitted model that updates attributes ending in "_". Sets
         `_is_fitted` flag to True.
         """
+        # A fit that raises must not leave the state of an earlier fit in use.
+        self._is_fitted = False
         X = check_series(X, allow_index_names=True)
 
         if y is not None:
